@@ -2,6 +2,8 @@
   PrtpyProofs.Natural2 — property C07, second part: naturality in the item type of the dynamic program, the
   complete Karmarkar–Karp search and the sequential/recursive number partitioning, and "the sums depend only on
   the values" for DP, complete greedy and CBLDM.
+  (Since fix F11 the theorems of B3 about `snp`/`rnp` — `ckk2_natural`, `snp_natural`, `rnp_natural` — are in
+  PrtpyProofs/CKKFSwitch.lean, same namespace; the lemmas about the tree, `foldE` and `findDiff` are still here.)
 -/
 import Prtpy
 import PrtpyProofs.Part
@@ -432,141 +434,11 @@ theorem findDiff_natural (items sub : List α) :
 
 end Erase
 
-variable (nmα : α → Nat) (nmβ : β → Nat) (hnm : ∀ a, nmβ (f a) = nmα a)
-include hf hinj hnm
-
-theorem ckk2_natural (contents : Bool) (items : List α) (fuel : Nat) :
-    ckk2 vβ nmβ contents (items.map f) fuel = (ckk2 vα nmα contents items fuel).map (Bins.mapItems f) := by
-  simp only [ckk2, List.isEmpty_map, ckk_natural f hinj nmα nmβ hnm vα vβ hf]
-  split <;> rfl
-
-theorem snpRec_natural (contents : Bool) (fuel : Nat) :
-    ∀ (n : Nat) (prior best : Bins α) (items : List α),
-      snpRec vβ nmβ contents fuel n (prior.mapItems f) (best.mapItems f) (items.map f)
-        = (snpRec vα nmα contents fuel n prior best items).map (Bins.mapItems f)
-  | 0, _, _, _ => rfl
-  | 1, _, _, _ => rfl
-  | 2, prior, best, items => by
-    simp only [snpRec, ckk2_natural f vα vβ hf hinj nmα nmβ hnm, mapItems_sums]
-    cases ckk2 vα nmα contents items fuel with
-    | error e => rfl
-    | ok two =>
-      simp only [Except.map, mapItems_sums, ← mapItems_concat]
-      split <;> rfl
-  | cur + 3, prior, best, items => by
-    simp only [snpRec, binSum_map f vα vβ hf, sortDesc_map f vα vβ hf]
-    have := treeFold_natural f vα vβ hf (Bins.mapItems f) (cur + 3) ((binSum vα items : Nat) : Int)
-      (fun (b : Bins α) => ((binSum vα items : Nat) : Int) - (((cur + 3 : Nat) : Int) - 1) * (spread b.sums : Nat))
-      (fun (b : Bins β) => ((binSum vα items : Nat) : Int) - (((cur + 3 : Nat) : Int) - 1) * (spread b.sums : Nat))
-      (fun b sub => snpRec vα nmα contents fuel (cur + 2) ⟨prior.sums ++ [binSum vα sub], prior.lists ++ [sub]⟩ b
-        (findDiff items sub))
-      (fun b sub => snpRec vβ nmβ contents fuel (cur + 2)
-        ⟨(prior.mapItems f).sums ++ [binSum vβ sub], (prior.mapItems f).lists ++ [sub]⟩ b
-        (findDiff (items.map f) sub))
-      (fun _ => rfl)
-      (fun b sub => by
-        have hp : (⟨(prior.mapItems f).sums ++ [binSum vβ (sub.map f)], (prior.mapItems f).lists ++ [sub.map f]⟩ : Bins β)
-            = (⟨prior.sums ++ [binSum vα sub], prior.lists ++ [sub]⟩ : Bins α).mapItems f := by
-          simp only [Bins.mapItems, binSum_map f vα vβ hf, List.map_append, List.map_cons, List.map_nil]
-        simp only [hp, findDiff_natural f hinj]
-        exact snpRec_natural contents fuel (cur + 2) _ b _)
-      best [] (sortDesc vα items)
-    simpa only [List.map_nil] using this
-
-/-- **B3 (SNP).** -/
-theorem snp_natural (k : Nat) (contents : Bool) (items : List α) (fuel : Nat) :
-    snp vβ nmβ k contents (items.map f) fuel = (snp vα nmα k contents items fuel).map (Bins.mapItems f) := by
-  simp only [snp, kk_natural f vα vβ hf]
-  cases kk vα k items with
-  | error e => rfl
-  | ok best =>
-    simp only [map_ok, mapItems_sums]
-    exact ite_map _ rfl (snpRec_natural f vα vβ hf hinj nmα nmβ hnm contents fuel k ⟨[], []⟩ best items)
-
-theorem rnpRec_natural (contents : Bool) (fuel : Nat) :
-    ∀ (rf cur : Nat) (prior best : Bins α) (items : List α),
-      rnpRec vβ nmβ contents fuel rf cur (prior.mapItems f) (best.mapItems f) (items.map f)
-        = (rnpRec vα nmα contents fuel rf cur prior best items).map (Bins.mapItems f) := by
-  intro rf
-  induction rf with
-  | zero => intros; rfl
-  | succ rf ih =>
-    intro cur prior best items
-    simp only [rnpRec]
-    refine ite_map _ (ckk2_natural f vα vβ hf hinj nmα nmβ hnm contents items fuel) (ite_map _ ?_ ?_)
-    · simp only [binSum_map f vα vβ hf, genTree_natural f vα vβ hf]
-      refine foldE_natural (Bins.mapItems f) (List.map f) _ _ ?_ best _
-      intro b sub
-      have hp : (⟨(prior.mapItems f).sums ++ [binSum vβ (sub.map f)], (prior.mapItems f).lists ++ [sub.map f]⟩ : Bins β)
-          = (⟨prior.sums ++ [binSum vα sub], prior.lists ++ [sub]⟩ : Bins α).mapItems f := by
-        simp only [Bins.mapItems, binSum_map f vα vβ hf, List.map_append, List.map_cons, List.map_nil]
-      simp only [hp, findDiff_natural f hinj, ih]
-      cases rnpRec vα nmα contents fuel rf (cur - 1) ⟨prior.sums ++ [binSum vα sub], prior.lists ++ [sub]⟩ b
-          (findDiff items sub) with
-      | error e => rfl
-      | ok nb =>
-        simp only [map_ok, mapItems_sums, ← mapItems_concat, binSum_map f vα vβ hf]
-        exact ite_map _ rfl rfl
-    · simp only [List.isEmpty_map, ckkGen_natural f hinj nmα nmβ hnm vα vβ hf, mapItems_sums]
-      cases hemp : items.isEmpty with
-      | true => rfl
-      | false =>
-        simp only [Bool.false_eq_true, if_false]
-        cases ckkGen vα nmα 2 true items (some (spread best.sums)) fuel with
-        | error e => rfl
-        | ok tops =>
-          simp only [map_ok]
-          have key : ∀ (e' : Except Err (Bins β × Nat)) (e : Except Err (Bins α × Nat)),
-              e' = e.map (fun st => (st.1.mapItems f, st.2)) →
-              e'.map (·.1) = (e.map (·.1)).map (Bins.mapItems f) := by
-            intro e' e h; subst h; cases e <;> rfl
-          refine key _ _ (foldE_natural (fun (st : Bins α × Nat) => (st.1.mapItems f, st.2)) (Bins.mapItems f)
-            _ _ ?_ (best, spread best.sums) tops)
-          intro st top
-          simp only [mapItems_lists, getD_map_map, ih]
-          cases rnpRec vα nmα contents fuel rf (cur / 2) prior st.1 (top.lists.getD 0 []) with
-          | error e => rfl
-          | ok nb1 =>
-            simp only [map_ok]
-            cases rnpRec vα nmα contents fuel rf (cur / 2) prior st.1 (top.lists.getD 1 []) with
-            | error e => rfl
-            | ok nb2 =>
-              simp only [map_ok, mapItems_sums, ← mapItems_concat]
-              exact ite_map _ rfl rfl
-
-/-- **B3 (RNP).** -/
-theorem rnp_natural (k : Nat) (contents : Bool) (items : List α) (fuel : Nat) :
-    rnp vβ nmβ k contents (items.map f) fuel = (rnp vα nmα k contents items fuel).map (Bins.mapItems f) := by
-  simp only [rnp, kk_natural f vα vβ hf]
-  cases kk vα k items with
-  | error e => rfl
-  | ok best =>
-    simp only [map_ok, mapItems_sums]
-    exact ite_map _ rfl (ite_map _ rfl
-      (rnpRec_natural f vα vβ hf hinj nmα nmβ hnm contents fuel (k + 1) k ⟨[], []⟩ best items))
+/- `ckk2_natural`, `snpRec_natural`, **`snp_natural`**, `rnpRec_natural`, `rnp_natural` (B3) and their examples are
+   in PrtpyProofs/CKKFSwitch.lean (same namespace, same names and argument order): since fix F11 `snp` and `rnp`
+   call `ckkF`, whose naturality (`CKKF.ckkF_natural`) is proved in PrtpyProofs/CKKF.lean, which imports this file. -/
 
 end SNP
-
-example : snp Prod.fst (fun p => p.2.toNat) 3 true (exNames.map entry) 1000
-    = (snp exVal Char.toNat 3 true exNames 1000).map (Bins.mapItems entry) :=
-  snp_natural entry exVal Prod.fst (fun _ => rfl) (fun _ _ h => congrArg Prod.snd h) Char.toNat
-    (fun p => p.2.toNat) (fun _ => rfl) 3 true exNames 1000
-/-- five items: KK is not perfect here, so the search really runs -/
-example : (snp exVal Char.toNat 3 true ['a', 'b', 'c', 'd', 'e'] 1000).map (·.lists)
-    = .ok [['e', 'd'], ['b'], ['c', 'a']] := by rfl
-example : snp Prod.fst (fun p => p.2.toNat) 3 true (['a', 'b', 'c', 'd', 'e'].map entry) 1000
-    = (snp exVal Char.toNat 3 true ['a', 'b', 'c', 'd', 'e'] 1000).map (Bins.mapItems entry) :=
-  snp_natural entry exVal Prod.fst (fun _ => rfl) (fun _ _ h => congrArg Prod.snd h) Char.toNat
-    (fun p => p.2.toNat) (fun _ => rfl) 3 true _ 1000
-
-example : rnp Prod.fst (fun p => p.2.toNat) 4 true (exNames.map entry) 1000
-    = (rnp exVal Char.toNat 4 true exNames 1000).map (Bins.mapItems entry) :=
-  rnp_natural entry exVal Prod.fst (fun _ => rfl) (fun _ _ h => congrArg Prod.snd h) Char.toNat
-    (fun p => p.2.toNat) (fun _ => rfl) 4 true exNames 1000
-example : (rnp exVal Char.toNat 4 true exNames 1000).map (·.lists)
-    = .ok [['e'], ['a', 'd'], ['b'], ['f', 'c']] := by rfl
-example : (rnp exVal Char.toNat 3 true ['a', 'b', 'c', 'd', 'e'] 1000).map (·.lists)
-    = .ok [['e', 'd'], ['b'], ['c', 'a']] := by rfl
 
 end Prtpy.Natural2
 
@@ -578,6 +450,4 @@ Axiom audit (`#print axioms`, observed):
 #print axioms Prtpy.Natural2.cbldm_sums_values   -- [propext, Quot.sound]
 #print axioms Prtpy.Natural2.ckk_natural         -- [propext, Quot.sound]
 #print axioms Prtpy.Natural2.ckkGen_natural      -- [propext, Quot.sound]
-#print axioms Prtpy.Natural2.snp_natural         -- [propext, Quot.sound]
-#print axioms Prtpy.Natural2.rnp_natural         -- [propext, Quot.sound]
 -/
